@@ -25,6 +25,11 @@ A labelled transition system.  One `Event` is one atomic point of one thread.
                                                   panic is caught by the task, `callback` is dropped while
                                                   unwinding: the receiver sees `Canceled`); in sequential mode
                                                   the worker loop, which awaits the `JoinHandle`, goes on
+    remoteWake t          any thread (a helper thread, another worker) calls `wake()` on a waker of task `t` --
+                          at any time, also while `t` is being polled (between two events of `t`), any number of
+                          times: the wake is remembered (`woken t`) until `t` is polled again.  The executor's
+                          cross-thread wake protocol itself is property C04's subject; here a poll of a live task
+                          is always enabled, so a remembered wake is never the last word
     die w p               the worker *thread* panics with payload `p` outside of any task (e.g. a waker run by
                           `TimerRuntime::wake`, `panic!("{e:?}")` in `poll_with`, runtime creation)
     reap w                `block_on_at` unwinds: the loop future (with its flume `Receiver`) is dropped, then
@@ -104,6 +109,7 @@ inductive Event where
   | rxDrop (t : Nat)
   | recv (w t : Nat)
   | poll (w t : Nat)
+  | remoteWake (t : Nat)
   | die (w p : Nat)
   | reap (w : Nat)
   | joinStart
@@ -147,12 +153,14 @@ structure St where
   ended : Nat → Nat
   /-- ghost: how often a value was sent into the channel of `t` -/
   sent : Nat → Nat
+  /-- a wake of task `t` is pending: it was woken (from any thread) since its last poll -/
+  woken : Nat → Bool
 
 def init (nw : Nat) (conc : Bool) : St :=
   { nw := nw, conc := conc, sender := true, queue := [], body := fun _ => default,
     stat := fun _ => .absent, main := fun _ => .idle, chan := fun _ => .none, joiner := none, joined := none,
     accepted := [], rejected := [], started := fun _ => 0, startedOn := fun _ => [],
-    ended := fun _ => 0, sent := fun _ => 0 }
+    ended := fun _ => 0, sent := fun _ => 0, woken := fun _ => false }
 
 /-- the loop future of the worker still owns its flume `Receiver` -/
 def Main.holdsRx : Main → Bool
@@ -269,22 +277,27 @@ def poll? (s : St) (w t : Nat) : Option St :=
       if w' = w then
         some { s with stat := upd s.stat t (.running w (s.body t).steps),
                       started := upd s.started t (s.started t + 1),
-                      startedOn := upd s.startedOn t (w :: s.startedOn t) }
+                      startedOn := upd s.startedOn t (w :: s.startedOn t), woken := upd s.woken t false }
       else none
     | .running w' (k + 1) =>
-      if w' = w then some { s with stat := upd s.stat t (.running w k) } else none
+      if w' = w then some { s with stat := upd s.stat t (.running w k), woken := upd s.woken t false } else none
     | .running w' 0 =>
       if w' = w then
         match (s.body t).out with
         | .ok v => some { s with stat := upd s.stat t (.done w), chan := upd s.chan t ((s.chan t).send v),
                                  main := resume s.main w (decide (s.main w = .awaiting t)), ended := upd s.ended t (s.ended t + 1),
-                                 sent := upd s.sent t (s.sent t + 1) }
+                                 sent := upd s.sent t (s.sent t + 1), woken := upd s.woken t false }
         | .panic => some { s with stat := upd s.stat t (.done w), chan := upd s.chan t (s.chan t).cancel,
-                                  main := resume s.main w (decide (s.main w = .awaiting t)), ended := upd s.ended t (s.ended t + 1) }
+                                  main := resume s.main w (decide (s.main w = .awaiting t)), ended := upd s.ended t (s.ended t + 1),
+                                  woken := upd s.woken t false }
         | .never => none
       else none
     | _ => none
   else none
+
+/-- a waker of an accepted task is used, from whatever thread -/
+def remoteWake? (s : St) (t : Nat) : Option St :=
+  if s.stat t ≠ .absent then some { s with woken := upd s.woken t true } else none
 
 def die? (s : St) (w p : Nat) : Option St :=
   if decide (w < s.nw) && (s.main w).inLoop then
@@ -327,6 +340,7 @@ def step? (s : St) : Event → Option St
   | .rxDrop t => rxDrop? s t
   | .recv w t => recv? s w t
   | .poll w t => poll? s w t
+  | .remoteWake t => remoteWake? s t
   | .die w p => die? s w p
   | .reap w => reap? s w
   | .joinStart => joinStart? s
